@@ -162,6 +162,16 @@ class SingleFunctionHandler:
     def __instancecheck__(self, obj):
         return issubclass(type(obj), self)
 
+    def __eq__(self, other):
+        return (
+            type(other) is type(self)
+            and self.handler is other.handler
+            and self.args == other.args
+        )
+
+    def __hash__(self):
+        return hash((self.handler, len(self.args)))
+
     def __str__(self):
         args = ", ".join(map(clsstring, self.__args__))
         return f"{self.handler.__name__}[{args}]"
